@@ -282,6 +282,8 @@ var registry = []propertySpec{
 				Bounds: "one parent and the child with exact-day births: day 1..28 symbolic, month one of Jan/Jun/Dec and year (parent 1800/1801, child 1800/1801/1830) by choice; the other parent born 1650 / 1995 / without a date; either parent symbolic; 3 record orders"},
 			{Name: "VerifC20_Siblings", Quick: tierSpec{Cases: 2}, Thorough: tierSpec{Cases: 2}, Sched: -1,
 				Bounds: "two siblings with exact-day births: day 1..28 symbolic, month Jan/Jun/Dec and year 1803..1805 by choice; distance 0, 5..268 or >= 280 days; both orders of the CHIL lines"},
+			{Name: "VerifC20_UnknownAge", Quick: tierSpec{Cases: 8}, Thorough: tierSpec{Cases: 8}, Sched: -1, Solver: "cvc5",
+				Bounds: "a person whose birth / baptism date cannot be interpreted (4 forms) with a death or burial on an exact day (day symbolic; 1850, 1950 or 2000)"},
 			{Name: "VerifC20_ThreeSiblings", Quick: tierSpec{Cases: 6}, Thorough: tierSpec{Cases: 6}, Sched: -1, Solver: "cvc5",
 				Bounds: "three children (days symbolic: January 1900, June 1900, June 1905) with the CHIL lines in all six orders"},
 			{Name: "VerifC20_Marriage", Quick: tierSpec{Cases: 1}, Thorough: tierSpec{Cases: 1}, Sched: -1, Solver: "cvc5",
